@@ -1,4 +1,5 @@
 import NaijaVerif.Lemmas.AnalysisLive
+import NaijaVerif.Lemmas.AnalysisNoTrap
 /-
 Static side of the liveness simulation: the (decidable, executable) conditions `lokListB` under
 which a plan is covered by `c03_live`.  They say, statement by statement along the very walk the
@@ -98,25 +99,25 @@ def LSetup.writesOkB (L : LSetup) (i : Nat) : Bool := subset (L.c.writes i) (L.c
 def LSetup.otherB (L : LSetup) (i : Nat) : Bool := !L.cfg.skip i || L.deadB i
 
 /-- Statement `j` does not refer to local `l`, directly or through a callee. -/
-def LSetup.refFreeB (L : LSetup) (l j : Nat) : Bool :=
-  !(L.c.reads j).contains l && !(L.c.writes j).contains l &&
-  (L.c.callees j).all (fun g => !(L.c.transReads g).contains l && !(L.c.transWrites g).contains l)
+def _root_.NaijaVerif.Analysis.Ctx.refFreeB (c : Ctx) (l j : Nat) : Bool :=
+  !(c.reads j).contains l && !(c.writes j).contains l &&
+  (c.callees j).all (fun g => !(c.transReads g).contains l && !(c.transWrites g).contains l)
 
 mutual
   /-- No reachable statement of the list (nested blocks included, nested function bodies not)
   refers to `l`. -/
-  def noRefB (L : LSetup) (l : Nat) : Stmt → Bool
-    | .ifS _ (.mk t _) none sid _ => (match sid with | some j => !L.c.live j || L.refFreeB l j | none => true) && noRefListB L l t
+  def noRefB (c : Ctx) (l : Nat) : Stmt → Bool
+    | .ifS _ (.mk t _) none sid _ => (match sid with | some j => !c.live j || c.refFreeB l j | none => true) && noRefListB c l t
     | .ifS _ (.mk t _) (some (.mk e _)) sid _ =>
-        (match sid with | some j => !L.c.live j || L.refFreeB l j | none => true) && noRefListB L l t && noRefListB L l e
-    | .loop _ (.mk b _) sid _ => (match sid with | some j => !L.c.live j || L.refFreeB l j | none => true) && noRefListB L l b
-    | .block (.mk b _) sid _ => (match sid with | some j => !L.c.live j || L.refFreeB l j | none => true) && noRefListB L l b
+        (match sid with | some j => !c.live j || c.refFreeB l j | none => true) && noRefListB c l t && noRefListB c l e
+    | .loop _ (.mk b _) sid _ => (match sid with | some j => !c.live j || c.refFreeB l j | none => true) && noRefListB c l b
+    | .block (.mk b _) sid _ => (match sid with | some j => !c.live j || c.refFreeB l j | none => true) && noRefListB c l b
     | .fnDef _ _ _ _ _ sid _ | .assign _ _ _ _ sid _ | .assignExisting _ _ _ _ sid _ | .assignIndex _ _ sid _
     | .ret _ sid _ | .brk sid _ | .cont sid _ | .expr _ sid _ =>
-        (match sid with | some j => !L.c.live j || L.refFreeB l j | none => true)
-  def noRefListB (L : LSetup) (l : Nat) : List Stmt → Bool
+        (match sid with | some j => !c.live j || c.refFreeB l j | none => true)
+  def noRefListB (c : Ctx) (l : Nat) : List Stmt → Bool
     | [] => true
-    | s :: ss => noRefB L l s && noRefListB L l ss
+    | s :: ss => noRefB c l s && noRefListB c l ss
 end
 
 def LSetup.scopeOwner (L : LSetup) (tg : Nat) : Option Nat := (L.c.facts.scopes[tg]?).map (·.owner)
@@ -127,13 +128,74 @@ def LSetup.blockOkB (L : LSetup) (f : Nat) (σ : List (Option Nat)) (b : List St
   | none => true
   | some tg => !σ.contains (some tg) && L.scopeOwner tg == some f
 
+/-! ### Pure functions (interprocedural `PureNoTrap`) -/
+
+/-- The summary of `g` is `PureNoTrap`. -/
+def _root_.NaijaVerif.Analysis.Ctx.pureB (c : Ctx) (g : Nat) : Bool := c.transClass g == .pureNoTrap
+
+mutual
+  /-- `arityOk` with user calls allowed: only calls of global builtins must have exactly one argument. -/
+  def arityOk2 : Expr → Bool
+    | .call (.var name _ _) args fn _ => ((fn.isSome && (globalClass name).isNone) || args.length == 1) && arityOk2List args
+    | .call (.member o _ _ _) args _ _ => arityOk2 o && arityOk2List args
+    | .call _ args _ _ => arityOk2List args
+    | .binary _ l r _ => arityOk2 l && arityOk2 r
+    | .index a i _ _ => arityOk2 a && arityOk2 i
+    | .array es _ => arityOk2List es
+    | .unary _ e _ => arityOk2 e
+    | .member o _ _ _ => arityOk2 o
+    | .str _ _ | .num _ _ | .var _ _ _ | .bool _ _ | .null _ => true
+  def arityOk2List : List Expr → Bool
+    | [] => true
+    | e :: es => arityOk2 e && arityOk2List es
+end
+
+/-- The quiet-initialiser test with calls of pure user functions allowed: the fixed classification of
+a statement of function `g` says `PureNoTrap`, builtin arities are respected, and every user function
+called has a `PureNoTrap` summary. -/
+def safe2B (c : Ctx) (g : Nat) (e : Expr) : Bool :=
+  decide (classify (fun l => c.owner l != some g) e = .pureNoTrap) && arityOk2 e &&
+  eOk (fun h => c.pureB h) (fun _ => false) e
+
+/-- A condition that cannot trap: safe and of literal type bool or null. -/
+def condSafeB (c : Ctx) (g : Nat) (e : Expr) : Bool :=
+  safe2B c g e && (literalTy e == some .bool || literalTy e == some .null)
+
+mutual
+  /-- The body of a function with a `PureNoTrap` summary, as the purity argument needs it: every
+  expression is safe, conditions are literally boolean, stores go to the function's own variables
+  inside the scopes of the activation (`σ`), no nested definitions, no index assignment. -/
+  def pureStmtB (cx : Ctx) (ds sc : Nat → Option Nat) (g : Nat) (σ : List (Option Nat)) : Stmt → Bool
+    | .assign _ _ e (some _) (some _) _ => safe2B cx g e
+    | .assignExisting _ _ e (some l) (some _) _ => safe2B cx g e && cx.owner l == some g && (match ds l with | some tg => σ.contains (some tg) | none => false)
+    | .ifS c (.mk t _) none (some _) _ => condSafeB cx g c && pureBodyB cx ds sc g (blockTag sc t :: σ) t
+    | .ifS c (.mk t _) (some (.mk e _)) (some _) _ =>
+        condSafeB cx g c && pureBodyB cx ds sc g (blockTag sc t :: σ) t && pureBodyB cx ds sc g (blockTag sc e :: σ) e
+    | .loop c (.mk b _) (some _) _ => condSafeB cx g c && pureBodyB cx ds sc g (blockTag sc b :: σ) b
+    | .block (.mk b _) (some _) _ => pureBodyB cx ds sc g (blockTag sc b :: σ) b
+    | .ret (some e) (some _) _ => safe2B cx g e
+    | .ret none (some _) _ | .brk (some _) _ | .cont (some _) _ => true
+    | .expr e (some _) _ => safe2B cx g e
+    | .assign _ _ _ none _ _ | .assign _ _ _ (some _) none _ | .assignExisting _ _ _ none _ _
+    | .assignExisting _ _ _ (some _) none _ | .assignIndex _ _ _ _ | .fnDef _ _ _ _ _ _ _
+    | .ifS _ (.mk _ _) none none _ | .ifS _ (.mk _ _) (some (.mk _ _)) none _ | .loop _ (.mk _ _) none _
+    | .block (.mk _ _) none _ | .ret (some _) none _ | .ret none none _ | .brk none _ | .cont none _ | .expr _ none _ => false
+  def pureBodyB (cx : Ctx) (ds sc : Nat → Option Nat) (g : Nat) (σ : List (Option Nat)) : List Stmt → Bool
+    | [] => true
+    | s :: ss => pureStmtB cx ds sc g σ s && pureBodyB cx ds sc g σ ss
+end
+
+/-- A registered function with a `PureNoTrap` summary has a pure body. -/
+def LSetup.pureFnB (L : LSetup) (g : Nat) (ps : List Param) (body : List Stmt) : Bool :=
+  !L.c.pureB g || pureBodyB L.c L.ds L.ss g [blockTag L.ss body, paramTag L.ds ps] body
+
 /-- Rule for `make l get e` (`isDecl`) / `l get e` to an own variable `l`, `st` = liveness state after it. -/
 def LSetup.ownStoreB (L : LSetup) (f : Nat) (σ : List (Option Nat)) (i : Nat) (isDecl : Bool) (l : Nat) (e : Expr)
     (st : LS) (rest : List Stmt) : Bool :=
   L.c.writes i == [l] &&
   (if isDecl then (match L.ds l with | some tg => σ.head? == some (some tg) | none => false) else L.inTags σ l) &&
   (!L.cfg.skip i || L.deadB i ||
-    (L.q f e && (!st.live.contains l || L.D2 l) && (!isDecl || noRefListB L l rest)))
+    (L.q f e && (!st.live.contains l || L.D2 l) && (!isDecl || noRefListB L.c l rest)))
 
 mutual
   /-- `s` is a statement of function `f` under the lexical chain `σ` and loop context `lc`; `st` is
@@ -179,6 +241,7 @@ mutual
     | .fnDef _ _ ps (.mk body _) (some g) (some i) _, _, _ =>
         L.baseB f σ i [] && L.writesOkB i && L.otherB i &&
         L.blockOkB g [paramTag L.ds ps] body && (match paramTag L.ds ps with | some tg => L.scopeOwner tg == some g | none => true) &&
+        L.pureFnB g ps body &&
         lokListB L g [blockTag L.ss body, paramTag L.ds ps] { brk := none, cont := none, kills := [] } body (boundary [])
     | .fnDef _ _ _ (.mk _ _) none (some i) _, _, _ => L.baseB f σ i [] && L.writesOkB i && L.otherB i
     | .ret (some e) (some i) _, _, _ => L.baseB f σ i [e] && L.writesOkB i && L.otherB i
@@ -188,6 +251,7 @@ mutual
     | .expr e (some i) _, _, _ => L.baseB f σ i [e] && L.writesOkB i && L.otherB i
     | .fnDef _ _ ps (.mk body _) (some g) none _, _, _ =>
         L.blockOkB g [paramTag L.ds ps] body && (match paramTag L.ds ps with | some tg => L.scopeOwner tg == some g | none => true) &&
+        L.pureFnB g ps body &&
         lokListB L g [blockTag L.ss body, paramTag L.ds ps] { brk := none, cont := none, kills := [] } body (boundary [])
     | .assign _ _ _ _ none _, _, _ | .assignExisting _ _ _ _ none _, _, _ | .assignIndex _ _ none _, _, _
     | .ifS _ (.mk _ _) none none _, _, _ | .ifS _ (.mk _ _) (some (.mk _ _)) none _, _, _ | .loop _ (.mk _ _) none _, _, _
@@ -201,6 +265,7 @@ end
 /-- A function definition (as registered by `hoist`) is well-formed for the simulation. -/
 def fnOkB (L : LSetup) (g : Nat) (ps : List Param) (body : List Stmt) : Bool :=
   L.blockOkB g [paramTag L.ds ps] body && (match paramTag L.ds ps with | some tg => L.scopeOwner tg == some g | none => true) &&
+  L.pureFnB g ps body &&
   lokListB L g [blockTag L.ss body, paramTag L.ds ps] { brk := none, cont := none, kills := [] } body (boundary [])
 
 end NaijaVerif.C03
